@@ -146,6 +146,15 @@ class Tree:
             self._canonical_locals("local_names_norm.json")
             self._resolve_moved()
         self._unsplit()
+        # renaming back can leave `x = x` behind (a spliced helper that returns its argument)
+        from .normalise import drop_self_assignments
+
+        for f in self.funcs.values():
+            if not f.module.is_test() and not isinstance(f.node, ast.Lambda):
+                if drop_self_assignments(f.node):
+                    for parent in ast.walk(f.node):
+                        for child in ast.iter_child_nodes(parent):
+                            child._parent = parent
 
     def _unsplit(self):
         """what is left of the variables split by split_webs goes back to its written name"""
@@ -215,7 +224,7 @@ class Tree:
             self._canonical_locals("local_names_norm.json")
 
     def _normalise_bodies(self):
-        from .normalise import inline_aliases, loops_to_comprehensions, positive_ifexps, unroll_literal_loops, updates_to_loops, inline_single_use_temps, forward_attr_stores, searches_to_loops, genexp_loops, split_webs, ifexp_to_if, default_none_gets, while_true_breaks, integer_attributes, explicit_to_augmented, hoist_walrus, push_not, or_defaults, split_chained_assignments, split_tuple_assignments, merge_nested_withs, conditional_iter_loops, index_while_to_for, strip_annotations, list_literal_augments, joinpaths
+        from .normalise import inline_aliases, loops_to_comprehensions, positive_ifexps, unroll_literal_loops, updates_to_loops, inline_single_use_temps, forward_attr_stores, searches_to_loops, genexp_loops, split_webs, ifexp_to_if, default_none_gets, while_true_breaks, integer_attributes, explicit_to_augmented, hoist_walrus, push_not, or_defaults, split_chained_assignments, split_tuple_assignments, merge_nested_withs, conditional_iter_loops, index_while_to_for, strip_annotations, list_literal_augments, joinpaths, sink_returns, drop_self_assignments
 
         self.normalised: List[str] = []
         int_attrs = integer_attributes([m.tree for m in self.modules.values() if not m.is_test()])
@@ -237,6 +246,7 @@ class Tree:
             hoist_walrus(f.node)
             while_true_breaks(f.node)
             positive_ifexps(f.node)
+            sink_returns(f.node)
             inline_single_use_temps(f.node)
             ifexp_to_if(f.node)
             unroll_literal_loops(f.node)
@@ -249,6 +259,7 @@ class Tree:
             forward_attr_stores(f.node)
             explicit_to_augmented(f.node, int_attrs)
             split_webs(f.node)
+            drop_self_assignments(f.node)
             n = loops_to_comprehensions(f.node)
             # inline_aliases needs many CFG builds: only for functions that have candidate assignments
             names = inline_aliases(f.node, max_rounds=12)
